@@ -3,6 +3,7 @@
 from __future__ import annotations
 
 import ast
+import re
 
 from .. import sqlt
 from ..execmodel import ExecHooks, R, make_session
@@ -453,7 +454,60 @@ def rule_type_table(ctx):
     ctx.floor("C06.f type table rows evaluated", n, 12)
 
 
+def rule_recorded_statement_still_valid(ctx):
+    """C06.j: what the recorded statement reads still exists when execute() returns: after a MERGE the statement recorded for
+    `description` is the counts query over the helper table, so nothing executed after it may drop (or replace) that table."""
+    from ..execmodel import make_session
+    from ..roles import roles
+    from .c12 import MergeHooks
+    from .common import sql_root
+
+    prog = ctx.prog
+    r = roles(prog)
+    hooks, sessions = [], []
+
+    def fac():
+        h = MergeHooks(None, "SELECT")
+        hooks.append(h)
+        return h
+
+    def run(I):
+        duck, conn, cur = make_session()
+        sessions.append(cur)
+        return I.call(I.getattr(cur, "execute"), [Sym("MERGE_COMMAND", typ="str", truthy=True), Const(None)], {}, None)
+
+    n = 0
+    for p, h, cur in zip(explore(prog, fac, run, max_paths=64), hooks, sessions):
+        if not h.parsed or p.outcome != "return":
+            continue
+        last = cur.attrs.get(r.last_sql)
+        k0, root0 = sql_root(last) if last is not None else ("?", None)
+        src0 = getattr(root0, "parsed_from", None) if k0 == "node" else None
+        last_txt = " ".join((text_of(src0) if src0 is not None else text_of(last)).split()) if last is not None else ""
+        reads = set(re.findall(r"\b(?:FROM|JOIN)\s+([A-Za-z_][A-Za-z_0-9.]*)", last_txt, re.I))
+        if not reads:
+            continue
+        n += 1
+        # position of the engine call that executed the recorded statement
+        texts = []
+        for sqlv, _, site in h.calls:
+            k, root = sql_root(sqlv)
+            src = getattr(root, "parsed_from", None) if k == "node" else None
+            texts.append((" ".join((text_of(src) if src is not None else text_of(sqlv)).split()), site))
+        pos = max((i for i, (t, _) in enumerate(texts) if t == last_txt), default=-1)
+        killers = [(t, site) for t, site in texts[pos + 1:] if re.match(r"(DROP|ALTER|TRUNCATE|CREATE\s+OR\s+REPLACE)\b", t, re.I)
+                   and any(re.search(r"\b" + re.escape(x.split(".")[-1]) + r"\b", t, re.I) for x in reads)]
+        ctx.ob("C06.j", f"MERGE: the tables the recorded statement reads ({sorted(reads)}) are still there when execute() returns", not killers,
+               "fakesnow/cursor.py", killers[0][0][:60] if killers else "")
+        for t, site in killers[:1]:
+            ctx.violation("C06.j", "cursor", "FakeSnowflakeCursor.execute", f"`{t[:50]}` after the recorded statement", f"fakesnow/cursor.py:{getattr(site, 'lineno', 0)}",
+                          f"after a MERGE the statement recorded for cursor.description is `{last_txt[:70]}…`, but `{t[:60]}` runs after it: describing the "
+                          f"recorded statement fails (2003, table does not exist) although rows and rowcount are fine")
+    ctx.floor("C06.j MERGE execute paths", n, 1)
+
+
 RULES = [
+    ("C06.j", rule_recorded_statement_still_valid, ("quick", "thorough")),
     ("C06.f", rule_type_table, ("quick", "thorough")),
     ("C06.h", rule_describe_dict_cursor, ("quick", "thorough")),
     ("C06.e", rule_precision_pattern, ("quick", "thorough")),
